@@ -17,7 +17,7 @@ use midnight_circuits::{
     instructions::{
         decomposition::Pow2RangeInstructions, ArithInstructions, AssertionInstructions,
         AssignmentInstructions, BinaryInstructions, CanonicityInstructions,
-        ComparisonInstructions, ControlFlowInstructions, ConversionInstructions,
+        BitwiseInstructions, ComparisonInstructions, ControlFlowInstructions, ConversionInstructions,
         DecompositionInstructions, DivisionInstructions, EqualityInstructions,
         RangeCheckInstructions, ZeroInstructions,
     },
@@ -87,6 +87,9 @@ impl Arg {
             Arg::N(n) => *n,
             _ => panic!("arg: nat expected"),
         }
+    }
+    pub fn n_pub(&self) -> u64 {
+        self.n()
     }
     fn big(&self) -> BigUint {
         match self {
@@ -179,6 +182,9 @@ pub struct Outcome {
     pub vars: Vec<(String, usize, usize, String, Option<F>)>,
     /// value (`InnerValue::value`) of every vector of the program, by first variable index
     pub vec_values: Vec<(usize, (usize, usize), Option<Vec<F>>)>,
+    /// `NativeGadget::constrained_cells` at the end of the synthesis (hook
+    /// `verif_constrained_cells`): (region index, offset, column key, strict upper bound), sorted.
+    pub bounds: Vec<(usize, usize, String, BigUint)>,
     pub completed: bool,
 }
 
@@ -243,21 +249,35 @@ impl Circuit<F> for ProgCircuit {
         for v in &vars {
             let n = v.native();
             let cell = n.cell();
-            let key = match cell.column.column_type() {
-                midnight_proofs::plonk::Any::Advice(_) => format!("a{}", cell.column.index()),
-                midnight_proofs::plonk::Any::Fixed => format!("f{}", cell.column.index()),
-                midnight_proofs::plonk::Any::Instance => format!("i{}", cell.column.index()),
-            };
+            let key = cell_col_key(&cell.column);
             let mut val = None;
             n.value().map(|x| val = Some(*x));
             out.vars.push((v.ty(), *cell.region_index, cell.row_offset, key, val));
         }
+        let mut bounds: Vec<(usize, usize, String, BigUint)> = g
+            .verif_constrained_cells()
+            .into_iter()
+            .map(|(x, b)| {
+                let cell = x.cell();
+                (*cell.region_index, cell.row_offset, cell_col_key(&cell.column), b)
+            })
+            .collect();
+        bounds.sort_by_key(|(k, o, key, _)| (*k, *o, if key.starts_with('f') { 1u8 } else { 2 }, key[1..].parse::<usize>().unwrap_or(0)));
+        out.bounds = bounds;
         let mut vv: Vec<_> = vecs.iter().map(|(i, v)| (*i, v.shape(), v.value())).collect();
         vv.sort_by_key(|x| x.0);
         out.vec_values = vv;
         out.completed = true;
         *self.outcome.borrow_mut() = out;
         Ok(())
+    }
+}
+
+fn cell_col_key(c: &Column<midnight_proofs::plonk::Any>) -> String {
+    match c.column_type() {
+        midnight_proofs::plonk::Any::Advice(_) => format!("a{}", c.index()),
+        midnight_proofs::plonk::Any::Fixed => format!("f{}", c.index()),
+        midnight_proofs::plonk::Any::Instance => format!("i{}", c.index()),
     }
 }
 
@@ -559,6 +579,29 @@ pub fn exec(
             let cs = g.assigned_to_le_chunks(l, &nat(vars, a[0].v()), a[1].n() as usize, nb)?;
             vars.extend(cs.into_iter().map(Var::N));
         }
+        "bebits" => {
+            let nb = match &a[1] {
+                Arg::OptN(n) => n.map(|x| x as usize),
+                _ => panic!("bebits nb"),
+            };
+            let bs = g.assigned_to_be_bits(l, &nat(vars, a[0].v()), nb, a[2].n() != 0)?;
+            vars.extend(bs.into_iter().map(Var::B));
+        }
+        "bebytes" => {
+            let nb = match &a[1] {
+                Arg::OptN(n) => n.map(|x| x as usize),
+                _ => panic!("bebytes nb"),
+            };
+            let bs = g.assigned_to_be_bytes(l, &nat(vars, a[0].v()), nb)?;
+            vars.extend(bs.into_iter().map(Var::Y));
+        }
+        "frombebits" => {
+            vars.push(Var::N(g.assigned_from_be_bits(l, &bits(vars, a[0].vs()))?));
+        }
+        "frombebytes" => {
+            let bs: Vec<_> = a[0].vs().iter().map(|i| byte(vars, *i)).collect();
+            vars.push(Var::N(g.assigned_from_be_bytes(l, &bs)?));
+        }
         "sgn0" => vars.push(Var::B(g.sgn0(l, &nat(vars, a[0].v()))?)),
         "frombits" => {
             vars.push(Var::N(g.assigned_from_le_bits(l, &bits(vars, a[0].vs()))?));
@@ -575,6 +618,35 @@ pub fn exec(
             let (q, r) = g.div_rem(l, &nat(vars, a[0].v()), a[1].big(), bound)?;
             vars.push(Var::N(q));
             vars.push(Var::N(r));
+        }
+        // ---- bitwise word instructions (instructions/bitwise.rs defaults)
+        "bnot" => vars.push(Var::N(g.bnot(l, &nat(vars, a[0].v()), a[1].n() as usize)?)),
+        "band" => vars.push(Var::N(g.band(l, &nat(vars, a[0].v()), &nat(vars, a[1].v()), a[2].n() as usize)?)),
+        "bor" => vars.push(Var::N(g.bor(l, &nat(vars, a[0].v()), &nat(vars, a[1].v()), a[2].n() as usize)?)),
+        "bxor" => vars.push(Var::N(g.bxor(l, &nat(vars, a[0].v()), &nat(vars, a[1].v()), a[2].n() as usize)?)),
+        // ---- byte-typed assertions / equality (each converts byte -> native: bound-cache writers)
+        "yaeq" => g.assert_equal(l, &byte(vars, a[0].v()), &byte(vars, a[1].v()))?,
+        "yaneq" => g.assert_not_equal(l, &byte(vars, a[0].v()), &byte(vars, a[1].v()))?,
+        "yaeqf" => g.assert_equal_to_fixed(l, &byte(vars, a[0].v()), a[1].n() as u8)?,
+        "yaneqf" => g.assert_not_equal_to_fixed(l, &byte(vars, a[0].v()), a[1].n() as u8)?,
+        "yiseq" => vars.push(Var::B(g.is_equal(l, &byte(vars, a[0].v()), &byte(vars, a[1].v()))?)),
+        "yisneq" => vars.push(Var::B(g.is_not_equal(l, &byte(vars, a[0].v()), &byte(vars, a[1].v()))?)),
+        "yiseqf" => vars.push(Var::B(g.is_equal_to_fixed(l, &byte(vars, a[0].v()), a[1].n() as u8)?)),
+        "yisneqf" => {
+            vars.push(Var::B(g.is_not_equal_to_fixed(l, &byte(vars, a[0].v()), a[1].n() as u8)?))
+        }
+        "ysel" => vars.push(Var::Y(g.select(
+            l,
+            &bit(vars, a[0].v()),
+            &byte(vars, a[1].v()),
+            &byte(vars, a[2].v()),
+        )?)),
+        "rem" => {
+            let bound = match &a[2] {
+                Arg::OptBig(b) => b.clone(),
+                _ => panic!("rem bound"),
+            };
+            vars.push(Var::N(g.rem(l, &nat(vars, a[0].v()), a[1].big(), bound)?));
         }
         // ---- chip-level entry points (NativeChip directly, bypassing the gadget's caches)
         "c_assertnoteq" => nc.assert_not_equal(l, &nat(vars, a[0].v()), &nat(vars, a[1].v()))?,
